@@ -139,9 +139,19 @@ func runC14(c *Ctx) {
 		okSubj := false
 		for _, in := range find(vp, callTo(ctxF)) {
 			a := ir.CallOf(in).Args
-			okSubj = ir.InfluencedBy(a[0], func(x ssa.Value) bool { return x == ssa.Value(vp.Params[2]) }) && loadsField(c.field("chainimport", "blockHeadersImportSourceValidator", "flags"))(a[2])
+			// ... the flags as configured, nothing or-ed in on some paths (a
+			// BFFastAdd added for headers that "cannot fail" skips the
+			// difficulty and median-time rules for them)
+			flagsF := c.field("chainimport", "blockHeadersImportSourceValidator", "flags")
+			exact := false
+			if u, isU := ir.Strip(a[2]).(*ssa.UnOp); isU && u.Op == token.MUL {
+				if fa, isFA := u.X.(*ssa.FieldAddr); isFA && ir.FieldOfAddr(fa) == flagsF {
+					exact = true
+				}
+			}
+			okSubj = ir.InfluencedBy(a[0], func(x ssa.Value) bool { return x == ssa.Value(vp.Params[2]) }) && exact
 		}
-		c.verdict(okSubj, c.nm(vp)+" | CheckBlockHeaderContext(current header, parent ctx, v.flags, ..)", c.P.Pos(vp.Pos()), "subject is the current header", "the contextual check is not applied to the current header with the validator's flags")
+		c.verdict(okSubj, c.nm(vp)+" | CheckBlockHeaderContext(current header, parent ctx, v.flags, ..)", c.P.Pos(vp.Pos()), "subject is the current header, flags are v.flags as configured", "the contextual check is not applied to the current header with exactly the validator's configured flags (v.flags itself, not a value derived from it)")
 		vs := c.fn("(*chainimport.blockHeadersImportSourceValidator).ValidateSingle")
 		c.nilReturnsGuarded(vs, errNil("blockchain.CheckBlockHeaderSanity", find(vs, callTo(sanF)), 0), 1)
 		vb := c.fn("(*chainimport.blockHeadersImportSourceValidator).ValidateBatch")
@@ -160,6 +170,32 @@ func runC14(c *Ctx) {
 			n += len(find(f, callTo(bvT("ValidateBatch")))) + len(find(f, callTo(bvT("ValidatePair"))))
 		}
 		c.verdict(n >= 2, c.nm(v)+" | every batch goes through ValidateBatch and the cross-batch ValidatePair", c.P.Pos(v.Pos()), "both calls present", "Validate no longer calls ValidateBatch and the cross-batch ValidatePair")
+	})
+
+	c.rule("C14.O3", "a header's context is the chain it will sit on: the ancestor walk of the import validator (lightHeaderCtx.RelativeAncestorCtx: median time past, difficulty) asks the target block header store for every ancestor height first and turns to the import file only when the store does not have it; a walk that leaves the store out for heights it 'cannot have' (a tip height read earlier, compared with < instead of <=) stops at the first header of the file and computes the median time from too few, too recent timestamps: a header at or below the true median is imported", func() {
+		fn := c.fn("(*chainimport.lightHeaderCtx).RelativeAncestorCtx")
+		fetch := c.method("headerfs", "BlockHeaderStore", "FetchHeaderByHeight")
+		getH := c.method("chainimport", "HeaderImportSource", "GetHeader")
+		meta := c.method("chainimport", "HeaderImportSource", "GetHeaderMetadata")
+		c.mustPrecede(fn, callTo(fetch), "targetStore.FetchHeaderByHeight(ancestorHeight)", callTo(getH, meta), "the import source lookup", 1)
+		// ... and a walk that finds nothing gives up only after the store was asked
+		var nilRets []ssa.Instruction
+		for _, r := range find(fn, isExit) {
+			if ir.IsNil(ir.RetVal(r.(*ssa.Return), 0)) {
+				nilRets = append(nilRets, r)
+			}
+		}
+		isNilRet := func(in ssa.Instruction) bool {
+			for _, r := range nilRets {
+				if r == in {
+					return true
+				}
+			}
+			return false
+		}
+		if len(nilRets) > 0 {
+			c.mustPrecede(fn, callTo(fetch), "targetStore.FetchHeaderByHeight(ancestorHeight)", isNilRet, "return nil (no such ancestor)", 1)
+		}
 	})
 
 	c.rule("C14.G5", "no header of the file escapes validation as the subject: pairs only ever validate their second header, so Validate validates the first header of the range before the first ValidateBatch (through validateFirst, or written out): every ValidateBatch call cannot be reached past a failed first-header validation, the first header (element 0 of the batch) is the subject of ValidatePair(<parent from the target store>, first) or of ValidateSingle(first), and the parent is fetched at the first header's height - 1", func() {
